@@ -104,7 +104,7 @@ func C12(c *core.Ctx) {
 	c.Assumption("TLC 1.8.0; spec/tree/PathsResolve.tla; HOME is pinned to /home/verifuser for the run; replay through loader.LoadWithContext on real directories")
 	os.Setenv("HOME", "/home/verifuser")
 	dump := filepath.Join(c.Work, "cases")
-	r, err := c.RunTLC(core.TLCOpts{Module: "MC_Paths", Dump: dump, Workers: 4, Timeout: 10 * time.Minute, Name: "paths"})
+	r, err := c.RunTLC(core.TLCOpts{Module: "MC_Paths", CfgText: fmt.Sprintf("SPECIFICATION Spec\nCONSTANTS More = %s\nINVARIANTS Laws\nCHECK_DEADLOCK FALSE\n", map[bool]string{true: "FALSE", false: "TRUE"}[c.Quick()]), Dump: dump, Workers: 4, Timeout: 10 * time.Minute, Name: "paths"})
 	if err != nil {
 		c.Inconclusive("MC_Paths failed: " + err.Error())
 		return
@@ -120,7 +120,7 @@ func C12(c *core.Ctx) {
 		cs := asMap(vars["cs"])
 		row, shape, class, origin := asStr(cs["row"]), asStr(cs["shape"]), asStr(cs["class"]), asStr(cs["origin"])
 		enforced := asBool(cs["enforced"])
-		if (row == "label_file" && (class != "rel" || shape == ".")) || (row == "env_file" && shape == ".") { // label files are read at load time: only shapes we can create
+		if (row == "label_file" && (class != "rel" || shape == ".")) || (row == "env_file" && (shape == "." || shape == "/")) { // label files are read at load time: only shapes we can create
 			skipped++
 			return nil
 		}
